@@ -2,6 +2,8 @@
  * AN_SCEN 0: {"a":{"b":{}}}   move /a   -> /a/b/c   moving a value into its own child: must be refused (C16 names this case)
  * AN_SCEN 1: {"a":{"b":{}},"x":V} move /x -> /a/b/c  an ordinary move into a nested object: status 0, value arrives, source gone
  * AN_SCEN 2: {"a":[{"x":1},{"y":2}]} move /a/0 -> /a/1/z  the target parent no longer exists once the source has left: must be refused
+ * AN_SCEN 3: {"a":[1,2,3]}  remove /a/2 ; add /a/- V   two operations on array elements: result [1,2,V] (the tail link must survive the removal)
+ * AN_SCEN 4: {"a":[1,2,3]}  move /a/2 -> /a/0        result [3,1,2]
  * In every scenario: no memory error, every block released exactly once by the end (ledger), document still a healthy tree. */
 #define VF_BUILTIN_STRINGS
 #define VF_BUILTIN_MEMCPY
@@ -22,7 +24,10 @@ void h_u_ap_nested_b(void)
     g_hook_allocs = 0; g_hook_frees = 0;
     __CPROVER_assume(val >= -4 && val <= 4);
     doc = mknode(cJSON_Object);
-#if AN_SCEN == 2
+#if AN_SCEN >= 3
+    a = member("a", 1, cJSON_Array); append(doc, a);
+    { int k; for (k = 1; k <= 3; k++) { cJSON *e = mknode(cJSON_Number); e->valueint = k; e->valuedouble = (double)k; append(a, e); } }
+#elif AN_SCEN == 2
     a = member("a", 1, cJSON_Array); append(doc, a);
     { cJSON *e0 = mknode(cJSON_Object), *e1 = mknode(cJSON_Object), *x = member("x", 1, cJSON_Number), *y = member("y", 1, cJSON_Number); x->valueint = 1; x->valuedouble = 1; y->valueint = 2; y->valuedouble = 2; append(e0, x); append(e1, y); append(a, e0); append(a, e1); }
 #else
@@ -32,8 +37,17 @@ void h_u_ap_nested_b(void)
 #endif
 #endif
     patches = mknode(cJSON_Array); p = mknode(cJSON_Object); append(patches, p);
+#if AN_SCEN == 3
+    append(p, strmember("op", 2, "remove", 6)); append(p, strmember("path", 4, "/a/2", 4));
+    { cJSON *q = mknode(cJSON_Object), *v = member("value", 5, cJSON_Number); v->valueint = val; v->valuedouble = (double)val; append(patches, q);
+      append(q, strmember("op", 2, "add", 3)); append(q, strmember("path", 4, "/a/-", 4)); append(q, v); }
+#else
     append(p, strmember("op", 2, "move", 4));
-#if AN_SCEN == 0
+#endif
+#if AN_SCEN == 3
+#elif AN_SCEN == 4
+    append(p, strmember("from", 4, "/a/2", 4)); append(p, strmember("path", 4, "/a/0", 4));
+#elif AN_SCEN == 0
     append(p, strmember("from", 4, "/a", 2)); append(p, strmember("path", 4, "/a/b/c", 6));
 #elif AN_SCEN == 1
     append(p, strmember("from", 4, "/x", 2)); append(p, strmember("path", 4, "/a/b/c", 6));
@@ -41,7 +55,18 @@ void h_u_ap_nested_b(void)
     append(p, strmember("from", 4, "/a/0", 4)); append(p, strmember("path", 4, "/a/1/z", 6));
 #endif
     status = cJSONUtils_ApplyPatchesCaseSensitive(doc, patches);
-#if AN_SCEN == 1
+#if AN_SCEN >= 3
+    __CPROVER_assert(status == 0, "C16 operations on array elements succeed");
+    {
+        cJSON *aa = cJSON_GetObjectItemCaseSensitive(doc, "a"); cJSON *e0 = aa ? aa->child : NULL, *e1 = e0 ? e0->next : NULL, *e2 = e1 ? e1->next : NULL;
+        __CPROVER_assert(aa != NULL && healthy(aa) && healthy(doc) && e2 != NULL && e2->next == NULL, "C16 C19 array of three elements in a healthy chain afterwards");
+#if AN_SCEN == 3
+        __CPROVER_assert(e0->valueint == 1 && e1->valueint == 2 && e2->valueint == val, "C16 remove /a/2 then add /a/-: [1,2,V] in order");
+#else
+        __CPROVER_assert(e0->valueint == 3 && e1->valueint == 1 && e2->valueint == 2, "C16 move /a/2 to /a/0: [3,1,2] in order");
+#endif
+    }
+#elif AN_SCEN == 1
     __CPROVER_assert(status == 0, "C16 an ordinary move into a nested object succeeds");
     {
         cJSON *aa = cJSON_GetObjectItemCaseSensitive(doc, "a"), *bb = aa ? cJSON_GetObjectItemCaseSensitive(aa, "b") : NULL, *cc = bb ? cJSON_GetObjectItemCaseSensitive(bb, "c") : NULL;
